@@ -14,6 +14,7 @@ let () = Drv_compiler.(ignore compiler_linked)
 let () = Drv_minimize.(ignore of_min_outcome)
 let () = Drv_regex.(ignore of_regex)
 let () = Drv_parse.(ignore of_grammar)
+let () = Drv_main.(ignore main_linked)
 
 let () =
   let ic = stdin in
